@@ -64,7 +64,7 @@ def run(ctx):
     cg, reach = reachable_bodies(lib)
     ctx.analysed["bodies_total"] = len(cg.nodes)
     ctx.analysed["bodies_reachable"] = len(reach)
-    ctx.floor("reachability", len(reach), 250, "bodies reachable from compile/search/conversion entry points")
+    ctx.floor("reachability", len(reach), 200, "bodies reachable from compile/search/conversion entry points")
     st = State(ctx, lib, cg, reach)
     ctx.attempt("panic_sites", st.panic_sites)
     ctx.attempt("loops", st.loops)
